@@ -88,6 +88,20 @@ def body(ctx):
             op = dict(api=api, path='/cb', size=size, cb='raise_base')
             op.update(dict(dest='bytesio') if api == 'pull' else dict(src='bytesio', mtime=3))
             specs.append(('callback raising a BaseException', dict(seed=ctx.seed + size, maxdata=65536, rid='plus', frag='whole', ops=[op, dict(api='shell', decode=False, cmd='after', chunks=[b'ok'.hex()])]), {}))
+    # arguments that cannot work: a local destination that cannot be opened, a device path object that is neither str nor bytes -
+    # whatever happens (exception class, what was already sent) must be the same in both classes
+    for k in range(6):
+        ops = [dict(api='pull', path='/f', size=3000, dest='path', local_as='missing_dir', cb=(None, 'ok')[k % 2]),
+               dict(api=('stat', 'list', 'pull')[k % 3], path='/x', path_as='purepath', size=10, dest='bytesio', st=[1, 2, 3], entries=[]),
+               dict(api='shell', decode=False, cmd='after', chunks=[b'ok'.hex()])]
+        if k >= 3:
+            ops = ops[1:2] + ops[0:1] + ops[2:]
+        specs.append(('unusable arguments', dict(seed=ctx.seed + 800 + k, maxdata=4096, rid='plus', frag='whole', ops=ops), {}))
+    # a damaged packet in the middle of a session (payload bit, checksum field off by one, checksum field zero)
+    for k in range(9):
+        ops = [dict(api='shell', decode=False, cmd='a', chunks=[b'one'.hex(), b'two'.hex()]), dict(api='stat', path='/s', st=[1, 2, 3]), dict(api='pull', path='/p', size=5000, dest='bytesio'),
+               dict(api='shell', decode=False, cmd='b', chunks=[b'three'.hex()])]
+        specs.append(('damaged packet', dict(seed=ctx.seed + 900 + k, maxdata=4096, rid='plus', frag='whole', ops=ops, mangle=dict(nth=1 + k // 3 * 2, kind=('check0', 'check+1', 'flip')[k % 3])), {}))
     # what is parked when connect() is called again without close(): a zero-id packet read while an OPEN was waiting for its OKAY,
     # late packets of a stream whose operation gave up
     for k in range(6 if ctx.quick else 60):
